@@ -1,7 +1,7 @@
 """Adapters for request IDs, service-1 verification reports and enumerated packet fields."""
 from __future__ import annotations
 
-from .core import outcome, octs
+from .core import outcome, octs, rxbuf
 from .ops_ecss import tm_proj, mk_tc
 from .probe import decode_other
 
@@ -46,7 +46,7 @@ def op_reqid_rt(a):
     def run():
         q = mk_req(a["r"], a.get("via", "ctor"))
         raw = q.pack()
-        d = RequestId.unpack(bytes(raw) + bytes(a["sfx"]))
+        d = RequestId.unpack(rxbuf(raw, a["sfx"]))
         return {"octets": octs(raw), "u32": _u32(q.as_u32()), "dec": proj_req(d), "du32": _u32(d.as_u32()),
                 "eq": bool(d == q) and bool(q == d), "hashok": hash(d) == hash(q), "repack": octs(d.pack())}
     return outcome(run)
@@ -147,7 +147,7 @@ def op_srv1_rt(a):
         p = a["p"]
         sw, ew = _widths(p)
         up = S.UnpackParams(len(p["stamp"]), sw, ew)
-        buf = bytes(raw) + bytes(a["sfx"])
+        buf = rxbuf(raw, a["sfx"])
         if a.get("via") == "from_tm":
             d = S.Service1Tm.from_tm(PusTm.unpack(buf, len(p["stamp"])), up)
         else:
